@@ -1291,6 +1291,34 @@ def sum_summand(app, kvar):
     return z3.substitute(templ, *([(p, a) for p, a in zip(ph, args[:len(ph)])] + [(k, kvar)]))
 
 
+def sum_step_lemmas(term, depth=2, _seen=None):
+    """instances of the defining equations of the sums occurring in `term` (lean/Lemmas.lean sum_range_succ'
+    and the empty sum): for S = SUM(.., lo, hi):  hi <= lo -> S == 0,  hi > lo -> S == SUM(.., lo, hi-1) +
+    summand(hi-1); applied again (depth) to the sums inside the split-off summand.  Valid by the definition
+    of the sum; the solver sees SUM_* as uninterpreted, so goals that step an accumulator carry these."""
+    out = []
+    seen = _seen if _seen is not None else set()
+
+    def rec(t, d):
+        if not isinstance(t, z3.ExprRef) or t.get_id() in seen:
+            return
+        seen.add(t.get_id())
+        if z3.is_quantifier(t):
+            return
+        if z3.is_app(t) and t.decl().name() in SUM_DEFS:
+            n = t.num_args()
+            lo, hi = t.arg(n - 2), t.arg(n - 1)
+            prev = t.decl()(*(list(t.children())[:n - 2] + [lo, z3.simplify(hi - 1)]))
+            last = z3.simplify(sum_summand(t, hi - 1))
+            out.append(z3.If(hi <= lo, t == 0, t == prev + last))
+            if d > 1:
+                rec(last, d - 1)
+        for ch in t.children():
+            rec(ch, d)
+    rec(O.to_z3(term) if not isinstance(term, z3.ExprRef) else term, depth)
+    return out
+
+
 def reduce_dims(x, dim, rank):
     if dim is None:
         return list(range(rank))
